@@ -138,6 +138,43 @@ Lemma hdr_prev_S f prev l :
   end.
 Proof. reflexivity. Qed.
 
+(** the link at the point where _read_hdr stops (returns or raises): what
+    [Reasm.read_hdr] reports in [HNone]/[HFound], and, when [hdr_decode]
+    raises, the unread chunks of the receiver at that raise *)
+Fixpoint hdr_rest (fuel : nat) (prev : bytes) (l : Reasm.link) : Reasm.link :=
+  match fuel with
+  | O => l
+  | S f =>
+      match Reasm.accumulate (S (List.length l)) 4 prev l with
+      | (None, _, l') => l'
+      | (Some buf, _, l') =>
+          if Frame.hdr_find buf <? 0 then l'
+          else
+            let b := slice_from buf (Frame.hdr_find buf) in
+            if zlen b <? 4 then hdr_rest f b l'
+            else match Frame.hdr_decode b with
+                 | Frame.Err _ => hdr_rest f (slice_from b 1) l'
+                 | _ => l'
+                 end
+      end
+  end.
+
+Lemma hdr_rest_S f prev l :
+  hdr_rest (S f) prev l =
+  match Reasm.accumulate (S (List.length l)) 4 prev l with
+  | (None, _, l') => l'
+  | (Some buf, _, l') =>
+      if Frame.hdr_find buf <? 0 then l'
+      else
+        let b := slice_from buf (Frame.hdr_find buf) in
+        if zlen b <? 4 then hdr_rest f b l'
+        else match Frame.hdr_decode b with
+             | Frame.Err _ => hdr_rest f (slice_from b 1) l'
+             | _ => l'
+             end
+  end.
+Proof. reflexivity. Qed.
+
 Lemma length_slice_from_le {A} (l : list A) i : (List.length (slice_from l i) <= List.length l)%nat.
 Proof. unfold slice_from. rewrite skipn_length. lia. Qed.
 
@@ -197,6 +234,7 @@ Qed.
 #[local] Arguments Reasm.read_hdr : simpl never.
 #[local] Arguments Reasm.read_frame : simpl never.
 #[local] Arguments hdr_prev : simpl never.
+#[local] Arguments hdr_rest : simpl never.
 
 Ltac py_unfold_hook ::= autounfold with reasm_model.
 
@@ -293,7 +331,7 @@ Proof. pystart. unfold Frame.hdr_find. pyrun. Qed.
 
 Lemma hdr_decode_kw_func n d :
   call_func program (S (S n)) SerialFrame_hdr_decode [sf] [("data", PBytes d)] =
-  do v <- emb_hdr (Frame.hdr_decode d); PyLite.Ok (v, Some sf).
+  do v <- attach (self_st sf) (emb_hdr (Frame.hdr_decode d)); PyLite.Ok (v, Some sf).
 Proof. pystart. unfold Frame.hdr_decode. pyrun. Qed.
 
 #[local] Hint Resolve parser_frame_func hdr_find_kw_func hdr_decode_kw_func
@@ -393,33 +431,40 @@ Proof.
 Qed.
 
 (** * _read_hdr *)
-Definition emb_hdr_out (pl : bytes) (o : Reasm.hdr_out) : PyLite.res (pv * option pv) :=
+(** [pl], [ll]: the buffer and the unread chunks of the receiver when the
+    method stops without having assigned [_prev_read] ([hdr_prev], [hdr_rest]):
+    the receiver on the [HFound] path, and at the raise on the [HRaise] path
+    (the raise of [SerialFrame.hdr_decode], which changes nothing) *)
+Definition emb_hdr_out (pl : bytes) (ll : Reasm.link) (o : Reasm.hdr_out) : PyLite.res (pv * option pv) :=
   match o with
   | Reasm.HNone p l' => PyLite.Ok (PTuple [PNone; PNone], Some (ch p l'))
   | Reasm.HFound fid flen b l' =>
       PyLite.Ok (PTuple [hdr_obj (enum_id fid) flen (perr_obj "NOERR" 0); PBytes b], Some (ch pl l'))
-  | Reasm.HRaise w => Exc w
+  | Reasm.HRaise w => ExcS w (self_st (ch pl ll))
   | Reasm.HFuel => Fuel
   end.
 
 (** what [call_func] keeps of the outcome of a body *)
 Definition obs (r : PyLite.res out) : PyLite.res (pv * option pv) :=
-  do o <- r;
-  match o with
-  | ONorm e' => PyLite.Ok (PNone, lookup "self" e')
-  | ORet v e' => PyLite.Ok (v, lookup "self" e')
-  | OBrk _ | OCont _ => Unsupported "break outside loop"
+  match r with
+  | PyLite.Ok (ONorm e') => PyLite.Ok (PNone, lookup "self" e')
+  | PyLite.Ok (ORet v e') => PyLite.Ok (v, lookup "self" e')
+  | PyLite.Ok (OBrk _) | PyLite.Ok (OCont _) => Unsupported "break outside loop"
+  | Exc c => Exc c
+  | ExcS c e' => ExcS c (match lookup "self" e' with Some v => self_st v | None => [] end)
+  | Fuel => Fuel
+  | Unsupported w => Unsupported w
   end.
 
 Lemma hdr_loop n lf : forall f k p l e,
   (Reasm_proofs.nbytes p l < f)%nat -> (f <= k)%nat -> (List.length l < lf)%nat ->
   genv e -> lookup "self" e = Some (ch p l) ->
   obs (while_loop program (call_func program (S (S n))) lf hdr_c hdr_b k e) =
-  emb_hdr_out (hdr_prev f p l) (Reasm.read_hdr f p l).
+  emb_hdr_out (hdr_prev f p l) (hdr_rest f p l) (Reasm.read_hdr f p l).
 Proof.
   induction f as [|f IH]; intros k p l e Hf Hk Hl Hg Hs; [lia|].
   destruct k as [|k]; [lia|]. genv_split.
-  rewrite read_hdr_S, hdr_prev_S, while_loop_S. unfold obs, hdr_c, hdr_b.
+  rewrite read_hdr_S, hdr_prev_S, hdr_rest_S, while_loop_S. unfold obs, hdr_c, hdr_b.
   esteps.
   lazymatch goal with
   | |- ?L = _ =>
@@ -440,7 +485,7 @@ Proof.
     pose proof (length_slice_from_1 (slice_from buf (Frame.hdr_find buf))) as Hsl1.
     esteps;
       lazymatch goal with
-      | |- (do o <- while_loop _ _ _ _ _ ?k ?e2; _) = _ =>
+      | |- match while_loop _ _ _ _ _ ?k ?e2 with _ => _ end = _ =>
           refine (IH k _ _ e2 _ _ _ _ _);
             [ unfold Reasm_proofs.nbytes, zlen in *; lia | lia | lia | genv_solve | env_rw; reflexivity ]
       | |- _ => reflexivity
@@ -454,17 +499,12 @@ Definition mfuel (p : bytes) (l : Reasm.link) : nat :=
 #[local] Arguments mfuel : simpl never.
 
 Lemma obs_call (r : PyLite.res out) :
-  (do o <- (do o <- r; match o with ONorm e1 => PyLite.Ok (ONorm e1) | _ => PyLite.Ok o end);
-   match o with
-   | ONorm e' => PyLite.Ok (PNone, lookup "self" e')
-   | ORet v e' => PyLite.Ok (v, lookup "self" e')
-   | OBrk _ | OCont _ => Unsupported "break outside loop"
-   end) = obs r.
-Proof. destruct r as [[]| | |]; reflexivity. Qed.
+  obs (do o <- r; match o with ONorm e1 => PyLite.Ok (ONorm e1) | _ => PyLite.Ok o end) = obs r.
+Proof. destruct r as [[]| | | |]; reflexivity. Qed.
 
 Lemma read_hdr_func n p l :
   call_func program (S (S (S (mfuel p l + n)))) CommHandler__read_hdr [ch p l] [] =
-  emb_hdr_out (hdr_prev (mfuel p l) p l) (Reasm.read_hdr (mfuel p l) p l).
+  emb_hdr_out (hdr_prev (mfuel p l) p l) (hdr_rest (mfuel p l) p l) (Reasm.read_hdr (mfuel p l) p l).
 Proof.
   assert (Hm : (Reasm_proofs.nbytes p l < mfuel p l)%nat /\ (List.length l < mfuel p l)%nat)
     by (unfold Reasm_proofs.nbytes, mfuel; lia).
@@ -472,7 +512,7 @@ Proof.
   lazymatch goal with
   | |- ?L = _ =>
       let h := head_of L in
-      transitivity (obs h); [ generalize h; intros r; destruct r as [[]| | |]; reflexivity | ]
+      transitivity (obs h); [ generalize h; intros r; destruct r as [[]| | | |]; reflexivity | ]
   end.
   apply hdr_loop; [exact Hm1 | lia | lia | split; reflexivity | reflexivity].
 Qed.
@@ -481,20 +521,30 @@ Qed.
 #[local] Hint Unfold emb_hdr_out : reasm_model.
 
 (** * _read_frame *)
-Definition emb_frame_out (o : Reasm.frame_out) : PyLite.res (pv * option pv) :=
+(** the receiver when _read_frame raises: [_prev_read] has not been assigned
+    ([hdr_prev]); the unread chunks are those _read_hdr left when it raised
+    ([hdr_rest]), resp. those the fill loop left when [frame_decode] raises *)
+Definition frame_raise_self (p : bytes) (l : Reasm.link) : pv :=
+  match Reasm.read_hdr (mfuel p l) p l with
+  | Reasm.HFound fid flen b l' =>
+      ch (hdr_prev (mfuel p l) p l) (snd (Reasm.fill (S (List.length l')) flen b l'))
+  | _ => ch (hdr_prev (mfuel p l) p l) (hdr_rest (mfuel p l) p l)
+  end.
+
+Definition emb_frame_out (rs : pv) (o : Reasm.frame_out) : PyLite.res (pv * option pv) :=
   match o with
   | Reasm.FNone p l' => PyLite.Ok (PNone, Some (ch p l'))
   | Reasm.FFrame fid payload p l' =>
       PyLite.Ok (frame_obj (enum_id fid) payload (perr_obj "NOERR" 0), Some (ch p l'))
-  | Reasm.FRaise w => Exc w
+  | Reasm.FRaise w => ExcS w (self_st rs)
   | Reasm.FFuel => Fuel
   end.
 
 Lemma read_frame_func n p l :
   call_func program (S (S (S (S (mfuel p l + n))))) CommHandler__read_frame [ch p l] [] =
-  emb_frame_out (Reasm.read_frame p l).
+  emb_frame_out (frame_raise_self p l) (Reasm.read_frame p l).
 Proof.
-  pystart. unfold Reasm.read_frame.
+  pystart. unfold Reasm.read_frame, frame_raise_self.
   change (S (List.length p + List.length (List.concat l) + List.length l)) with (mfuel p l).
   pose proof (read_hdr_inv (mfuel p l) p l) as [_ Hle];
     [unfold Reasm_proofs.nbytes, mfuel; lia|].
